@@ -236,6 +236,10 @@ pub fn random_qmc(rng: &mut SplitMix64) -> QmcSpec {
                 let c = d(rng);
                 bonds.push(BondSpec { kind: 0, mat: vec![c, c, c, c], vars: vec![0] });
             }
+            // an accepted term on NO variables (a pure energy shift): loops may start on it
+            if rng.chance(1, 4) {
+                bonds.push(BondSpec { kind: 2, mat: vec![d(rng)], vars: vec![] });
+            }
         }
         1 => {
             // Ising-symmetric diagonal terms + constant single-site terms -> cluster updates
@@ -251,6 +255,16 @@ pub fn random_qmc(rng: &mut SplitMix64) -> QmcSpec {
                 let vs = pick_distinct(rng, nvars, 2);
                 let (a, b) = (d(rng), d(rng));
                 bonds.push(BondSpec { kind: 2 + rng.below(2) as usize, mat: vec![a, b, b, a], vars: vs });
+            }
+            // a term on no variables: its operators have no legs and form clusters by themselves
+            if rng.chance(1, 4) {
+                bonds.push(BondSpec { kind: 2 * rng.below(2) as usize, mat: vec![d(rng)], vars: vec![] });
+            }
+            // a single-site diagonal table with equal entries: an energy shift, never a cluster boundary
+            if rng.chance(1, 3) {
+                let c = d(rng);
+                let v = rng.below(nvars as u64) as usize;
+                bonds.push(BondSpec { kind: 2, mat: vec![c, c], vars: vec![v] });
             }
         }
         2 => {
